@@ -157,6 +157,15 @@ func types() []typeDef {
 				func(g, a int) {
 					if rel, ok := m.TryLock(); ok {
 						shared++
+						if a%4 == 1 {
+							// the release function may be called from any goroutine, also twice at once
+							var wg sync.WaitGroup
+							wg.Add(1)
+							go func() { defer wg.Done(); rel() }()
+							rel()
+							wg.Wait()
+							return
+						}
 						rel()
 						if a%4 == 0 {
 							rel()
@@ -207,6 +216,14 @@ func types() []typeDef {
 							shared++
 						} else {
 							_ = shared
+						}
+						if a%4 >= 2 {
+							var wg sync.WaitGroup
+							wg.Add(1)
+							go func() { defer wg.Done(); rel() }()
+							rel()
+							wg.Wait()
+							return
 						}
 						rel()
 					}
